@@ -327,6 +327,17 @@ def gateRelayHeader (U : Univ) (cfg : Cfg) (n : Node) (h : Nat) : Dec :=
   else if (U n.tip).height + 1 < cfg.require then .resync   -- :383-385 (repair)
   else .ignore                                              -- :386 relay only
 
+/-- the same handler with its "relayed recently" memo (`firstRelay`, peer.go:395-399, a ring of
+the last 32 relayed header IDs that stops a header from being passed around in circles), in
+source order: the memo is consulted **after** the relaying peer has been flipped to unsynced and
+decides only whether the header is passed on (second component). -/
+def relayHeaderM (U : Univ) (cfg : Cfg) (n : Node) (h : Nat) (relayedBefore : Bool) : Dec × Bool :=
+  if !n.known.contains (U h).parent then (.resync, false)
+  else if n.known.any (sameId U h) then (.ignore, false)
+  else if !(U h).pow then (.ban, false)
+  else if (U h).parent != (U n.tip).cid then (.resync, false)
+  else ((if (U n.tip).height + 1 < cfg.require then .resync else .ignore), !relayedBefore)
+
 /-- what happened to an outline's missing transactions (peer.go:404-421) -/
 inductive Missing where
   | complete    -- nothing missing after consulting the pool
